@@ -113,10 +113,12 @@ def run(ctx):
         return
 
     # ---- known findings, corpus
+    from framework import run_py_corpus
+    ctx.coverage["corpus_programs"] = run_py_corpus(ctx)
     excluded = []
     for kf in known_findings("C15"):
         rp = os.path.join(VERIF, kf.get("replay", ""))
-        if not os.path.isfile(rp):
+        if not os.path.isfile(rp) or rp.endswith(".py"):    # (programs: run below with the corpus)
             continue
         fails = replay_file(ctx, rp)
         spec_fails = [w for k, w in fails if k == "spec"]
